@@ -516,11 +516,12 @@ func TestC09(t *testing.T) {
 
 // ---------------------------------------------------------------- C13: every short response sequence
 
-// TestC13: ALL response sequences of length <= 2 (thorough: <= 3 over a
-// reduced target set) over the 18 envelope shapes of clientgen.go addressed to
-// two outstanding calls (one unary, one stream; both streams; both unary) or
-// an unknown id, with and without a stats handler, each closed by a read
-// failure; plus seeded random sequences of length 3..6.
+// TestC13: ALL response sequences of length <= 2 over the 18 envelope shapes of
+// clientgen.go x {call 0, call 1, unknown id} for every kind pair (unary+stream,
+// stream+stream, unary+unary); thorough: also ALL length-3 sequences addressed
+// to the two calls for every kind pair and 8000 length-4 sequences sampled by
+// the seed; stats handler on every other case, each closed by a read failure;
+// plus seeded random sequences of length 3..6.
 func TestC13(t *testing.T) {
 	shard, nsh, child := sharded(t, "TestC13", 14)
 	if !child {
@@ -585,28 +586,36 @@ func TestC13(t *testing.T) {
 			}
 		}
 	}
-	// length 2: every pair over (target, shape), kind set rotating (thorough: every kind set)
+	// length 2: every pair over (target, shape) for EVERY kind set
 	for a := 0; a < 3*nShapes; a++ {
 		for b := 0; b < 3*nShapes; b++ {
 			for ki, kinds := range kindSets {
-				if !thorough() && (a+b)%3 != ki {
-					continue
-				}
 				run(kinds, [][2]int{{a / nShapes, a % nShapes}, {b / nShapes, b % nShapes}}, []string{kn[ki], "exhaustive"})
 			}
 		}
 	}
 	if thorough() {
-		// length 3 over the two calls (targets 0, 1) of the unary+stream pair
+		// length 3: every sequence addressed to the two calls, for EVERY kind set
 		for a := 0; a < 2*nShapes; a++ {
 			for b := 0; b < 2*nShapes; b++ {
 				for c := 0; c < 2*nShapes; c++ {
-					run(kindSets[0], [][2]int{{a / nShapes, a % nShapes}, {b / nShapes, b % nShapes}, {c / nShapes, c % nShapes}}, []string{kn[0], "exhaustive"})
+					for ki, kinds := range kindSets {
+						run(kinds, [][2]int{{a / nShapes, a % nShapes}, {b / nShapes, b % nShapes}, {c / nShapes, c % nShapes}}, []string{kn[ki], "exhaustive"})
+					}
 				}
 			}
 		}
+		// length 4: sampled by the seed
+		for i := 0; i < 8000; i++ {
+			ki := r.Intn(3)
+			var seq [][2]int
+			for j := 0; j < 4; j++ {
+				seq = append(seq, [2]int{r.Intn(3), r.Intn(nShapes)})
+			}
+			run(kindSets[ki], seq, []string{kn[ki], "len4-sampled"})
+		}
 	}
-	nr := 600
+	nr := 500
 	if thorough() {
 		nr = 6000
 	}
